@@ -15,7 +15,7 @@ Chk(name, cond, line, detail) == IF cond THEN 0 ELSE Fl(name, line, detail)
 Stat(name) == IF PrintT(<<"STAT", name>>) THEN 0 ELSE 0
 R(st1, f) == [s |-> st1, f |-> f]
 
-S0 == [side |-> "client", mech |-> "none", st |-> Undecided, ret |-> "none", badOutcome |-> FALSE, sawSaslHdr |-> FALSE]
+S0 == [side |-> "client", mech |-> "none", st |-> Undecided, ret |-> "none", badOutcome |-> FALSE, sawSaslHdr |-> FALSE, piped |-> FALSE]
 
 \* the frame a trace row stands for
 Frame(r) == CASE r.ev = "PHeader" -> [k |-> "hdr", kind |-> r.kind]
@@ -48,8 +48,11 @@ Step(z, r, ln) ==
     [] r.ev = "ApiRet" /\ r.op \in {"accept", "open"} ->
          IF r.res.ok THEN R([z EXCEPT !.ret = "ok"], Chk(Clause(z), MayProceed(z), ln, "call-ok") + (IF z.st.ph = "amqp" THEN Stat("authenticated") ELSE 0))
          ELSE R([z EXCEPT !.ret = "err"], IF z.st.ph = "fail" THEN Stat("refused") ELSE 0)
+    [] r.ev = "Mark" -> R([z EXCEPT !.piped = TRUE], 0)
     [] r.ev = "End" ->
-         R(z, Chk("C19_BothFail", z.st.ph = "fail" => z.ret = "err", ln, IF z.ret = "ok" THEN "call-ok" ELSE "call-pending")
+         \* the whole client side of a successful exchange written in one piece must be understood as it is when it arrives frame by frame
+         R(z, Chk("C06_SplitIndependent", ~z.piped \/ z.st.ph # "amqp" \/ z.ret = "ok", ln, "handshake-in-one-piece")
+              + Chk("C19_BothFail", z.st.ph = "fail" => z.ret = "err", ln, IF z.ret = "ok" THEN "call-ok" ELSE "call-pending")
               + Chk("C19_NoPanic", r.panics = 0, ln, ""))
     [] r.ev = "Spin" -> R(z, Fl("C19_NoHang", ln, "spin"))
     [] OTHER -> R(z, 0)
